@@ -195,6 +195,7 @@ func errClass(e error) string {
 		{"budgets exceeds 10%", "over10"},
 		{"budgets exceeds the balance", "overbal"},
 		{"budgets is invalid", "negsum"},
+		{"budgets amount overflow", "overflow"},
 		{"invalid amount", "negamount"},
 		{"imprest can only be in the first phase", "shape"},
 		{"first general type budget needs to start", "shape"},
